@@ -26,7 +26,7 @@ ASSUMPTIONS = ["a forged datagram that carries the right token AND the right sou
                "indication was delivered to the endpoint"]
 EXPECTED_PROBES = ["forged_random_token", "forged_wrong_ip", "forged_wrong_port", "late_copy", "rst_for_unmatched_con",
                    "matched", "failed_by_icmp", "failed_by_giveup", "failed_by_rst", "resolution_failure", "pending_at_quiescence",
-                   "dup_response_delivered", "multicast_request_outstanding", "response_before_exchange_end"]
+                   "dup_response_delivered", "multicast_request_outstanding", "response_before_exchange_end", "peer_request_under_own_token"]
 
 FORGED = b"FORGED"
 
@@ -55,8 +55,16 @@ def gen(r, tier):
     if r.chance(0.2):
         ops.append({"op": "icmp", "t": round(r.uniform(0, t + 2), 4), "srv": r.randrange(0, 1 + nscripted),
                     "errno": r.choice([111, 113])})
+    both = r.chance(0.3)
+    if both and nscripted:
+        # the context is client AND server towards the scripted servers: they send it requests of their own (slow
+        # handler), partly under the very token one of its own outstanding requests to them carries (tokens are
+        # chosen independently by the two directions)
+        for _ in range(r.randint(1, 3)):
+            ops.append({"op": "peer_req", "t": round(r.uniform(0, t + 1), 4), "srv": r.randrange(1, 1 + nscripted),
+                        "token": r.choice(["own", "own", "other"]), "d": r.choice([0.3, 1.0, 4.0])})
     ops.sort(key=lambda o: (o["t"], o["op"] != "req"))
-    return {"nscripted": nscripted, "ops": ops, "net": faults.swarm(r, kinds=("drop", "dup", "delay", "reorder")),
+    return {"both_roles": both, "nscripted": nscripted, "ops": ops, "net": faults.swarm(r, kinds=("drop", "dup", "delay", "reorder")),
             "senderr": round(r.uniform(0.01, 0.08), 3) if r.chance(0.08) else 0, "stall": r.chance(0.1),
             # one more concurrent request: to a multicast group nobody answers from (outstanding for the whole run)
             "mcast": r.chance(0.15), "same_host": r.chance(0.3), "v4": r.chance(0.15)}
@@ -86,6 +94,9 @@ class ScriptServer(ScriptedEndpoint):
         if msg is None:
             return
         if msg["type"] == rc.CON and msg["code"] >= 64:
+            if getattr(self, "acks_responses", False):
+                # (the response to a request this server sent to the client context in its server role)
+                self.send(src, msg={"type": rc.ACK, "code": 0, "mid": msg["mid"], "token": b"", "options": [], "payload": b""})
             return
         if not (1 <= msg["code"] < 32):
             return
@@ -168,7 +179,17 @@ def execute(sim, scn):
         site = resource.Site()
         site.add_resource(["echo"], Echo())
         s = await sim.server(site, common.SERVER_IP)
-        c = await sim.client(common.CLIENT_IP)
+        if scn.get("both_roles"):
+            class Slow(resource.Resource):
+                async def render_get(self, request):
+                    q = dict(x.split("=", 1) for x in request.opt.uri_query)
+                    await asyncio.sleep(float(q.get("d", "0.3")))
+                    return Message(payload=b"slow")
+            site2 = resource.Site()
+            site2.add_resource(["slow"], Slow())
+            c = await sim.server(site2, common.CLIENT_IP, loggername="coap")
+        else:
+            c = await sim.client(common.CLIENT_IP)
         return s, c
 
     server, client = loop.run_until_complete(setup())
@@ -265,11 +286,31 @@ def execute(sim, scn):
         sim.probe("multicast_request_outstanding")
         loop.at(0.0, lambda: tracker.start("mcast", client, Message(code=GET, uri="coap://[ff02::fd]/echo?t=9999&d=0",
                                                                     transport_tuning=Unreliable()), handle_blockwise=False))
+    def do_peer_req(i, op):
+        if not scn.get("both_roles") or op["srv"] - 1 >= len(scripted):
+            return
+        srv_ep = scripted[op["srv"] - 1]
+        srv_ep.acks_responses = True
+        token = bytes([0x5B, i & 0xFF, 0x01])
+        if op["token"] == "own":
+            # the token of the client's latest request to this server that has not been answered yet
+            answered = {e["msg"]["token"] for e in sim.net.wire if e["src"] == srv_ep.addr and e["dst"] == me
+                        and e["msg"] is not None and e["msg"]["code"] >= 64}
+            mine = [e["msg"]["token"] for e in sim.net.wire if e["src"] == me and e["dst"] == srv_ep.addr
+                    and e["msg"] is not None and 1 <= e["msg"]["code"] < 32 and e["msg"]["token"] not in answered]
+            if mine:
+                token = mine[-1]
+                sim.probe("peer_request_under_own_token")
+        srv_ep.send(me, msg={"type": rc.CON, "code": rc.GET, "mid": 0x6100 + (i & 0xFF), "token": token,
+                             "options": [(rc.URI_PATH, b"slow"), (rc.URI_QUERY, b"d=%r" % op["d"])], "payload": b""})
+
     for i, op in enumerate(scn["ops"]):
         if op["op"] == "req":
             loop.at(op["t"], do_req, i, op)
         elif op["op"] == "forge":
             loop.at(op["t"], do_forge, i, op)
+        elif op["op"] == "peer_req":
+            loop.at(op["t"], do_peer_req, i, op)
         else:
             def do_icmp(op=op):
                 icmps.append((loop.now, addr_of[op["srv"] % len(addr_of)]))
@@ -413,6 +454,8 @@ def execute(sim, scn):
             sim.violation(kind, {"to": fmt(k[0]), "mid": k[1], "expected": expect_rst.get(k, 0), "sent": got_rst.get(k, 0)})
             break
     for k in set(expect_ack) | set(got_ack):
+        if 0x6100 <= k[1] <= 0x61FF and k[0] in [s_.addr for s_ in scripted]:
+            continue  # acknowledgements of the requests the scripted servers sent to the context (its server role)
         if expect_ack.get(k, 0) != got_ack.get(k, 0):
             kind = "C02/matched-con-response-not-acked" if got_ack.get(k, 0) < expect_ack.get(k, 0) else "C02/unexpected-ack"
             sim.violation(kind, {"to": fmt(k[0]), "mid": k[1], "expected": expect_ack.get(k, 0), "sent": got_ack.get(k, 0)})
